@@ -730,11 +730,13 @@ Proof.
   split; [repeat constructor|]. vm_compute. split; reflexivity.
 Qed.
 
-(* ------------------------------------------------------------------ clip paths and the conversion cache (F18) *)
-Lemma cacheable_not_obb u : clip_cacheable u = true -> units_eqb u ObjectBoundingBox = false.
-Proof. unfold clip_cacheable. destruct u; simpl; congruence. Qed.
-Lemma not_cacheable_obb u : clip_cacheable u = false -> units_eqb u ObjectBoundingBox = true.
-Proof. unfold clip_cacheable. destruct u; simpl; congruence. Qed.
+(* ------------------------------------------------------------------ clip paths and the conversion cache (F18, fixed by 18adf92) *)
+Lemma chain_cacheable_iff c : chain_cacheable c = negb (chain_has_obb c).
+Proof.
+  unfold chain_cacheable, chain_has_obb, clip_cacheable. induction c as [|e r IH]; simpl; [reflexivity|].
+  rewrite IH. destruct (units_eqb (ce_units e) ObjectBoundingBox); simpl; [reflexivity|].
+  destruct (existsb _ r); reflexivity.
+Qed.
 
 Lemma expected_indep c : chain_has_obb c = false ->
   forall b, clip_expected c b = clip_expected c None /\ exists l, clip_expected c None = Some l.
@@ -746,6 +748,7 @@ Proof.
     split; [reflexivity|]. eexists. reflexivity.
 Qed.
 
+Local Arguments chain_cacheable : simpl never.
 Section ClipCache.
   Variable taken : list N.
   (* the clip path chains of one document: closed under links, an id names one element, ids are document ids *)
@@ -754,6 +757,7 @@ Section ClipCache.
   Hypothesis D_inj : forall e1 l1 e2 l2, inD (e1 :: l1) -> inD (e2 :: l2) -> ce_id e1 = ce_id e2 -> e1 :: l1 = e2 :: l2.
   Hypothesis D_taken : forall e l, inD (e :: l) -> In (ce_id e) taken.
 
+  (* what is cached under the id of a fully user-space chain is its box-independent conversion *)
   Definition cache_ok (st : cstate) : Prop :=
     forall e link v, inD (e :: link) -> chain_has_obb (e :: link) = false ->
       cache_get (cs_cache st) (ce_id e) = Some v -> Some (cconv_ts v) = clip_expected (e :: link) None.
@@ -764,46 +768,20 @@ Section ClipCache.
     | None => r = None
     end.
 
-  Lemma convert_ok : forall c, (c = [] \/ inD c) -> KnownClass_cached_obb_link c = false ->
+  Lemma convert_ok : forall c, (c = [] \/ inD c) ->
     forall bbox st, cache_ok st ->
       let '(r, st') := clip_convert taken c bbox st in cache_ok st' /\ result_ok c bbox r.
   Proof.
-    induction c as [|e link IH]; intros Hin Hk bbox st Hc.
+    induction c as [|e link IH]; intros Hin bbox st Hc.
     - simpl. split; [exact Hc|]. unfold result_ok. simpl. exists []. split; reflexivity.
     - destruct Hin as [Hin|Hin]; [discriminate|].
-      simpl in Hk. apply orb_false_elim in Hk as [Hk1 Hk2].
       assert (Hlink : link = [] \/ inD link) by (apply (D_tl e); exact Hin).
-      simpl clip_convert.
-      destruct (clip_cacheable (ce_units e)) eqn:Ecb.
-      + (* cacheable: the whole chain is in user space *)
-        simpl in Hk1.
-        assert (He : units_eqb (ce_units e) ObjectBoundingBox = false) by (apply cacheable_not_obb; exact Ecb).
-        assert (Hall : chain_has_obb (e :: link) = false).
-        { unfold chain_has_obb. simpl. rewrite He. exact Hk1. }
-        destruct (expected_indep (e :: link) Hall bbox) as [Ei (l & El)].
-        destruct (cache_get (cs_cache st) (ce_id e)) as [v|] eqn:Eg.
-        * split; [exact Hc|]. unfold result_ok. rewrite Ei, El. exists v. split; [reflexivity|].
-          pose proof (Hc e link v Hin Hall Eg) as K. rewrite El in K. inversion K. reflexivity.
-        * unfold clip_elem_ts. rewrite He.
-          specialize (IH Hlink Hk2 bbox st Hc).
-          destruct (clip_convert taken link bbox st) as [rl st1]. destruct IH as [Hc1 Rl].
-          assert (Hlall : chain_has_obb link = false) by exact Hk1.
-          destruct (expected_indep link Hlall bbox) as [Eli (ll & Ell)].
-          unfold result_ok in Rl. rewrite Eli, Ell in Rl. destruct Rl as (lk & -> & Elk).
-          simpl. split.
-          -- (* the new entry is the bbox-independent conversion of this chain *)
-             intros e2 l2 v2 Hin2 Hall2 Eg2. simpl in Eg2.
-             destruct (N.eqb (ce_id e) (ce_id e2)) eqn:Eid.
-             ++ apply N.eqb_eq in Eid. pose proof (D_inj _ _ _ _ Hin Hin2 Eid) as Eq. inversion Eq; subst e2 l2.
-                inversion Eg2; subst v2. simpl. unfold cconv_ts. simpl. fold (cconv_ts lk). rewrite Elk.
-                unfold clip_elem_ts. rewrite He. rewrite Ell. reflexivity.
-             ++ apply (Hc1 e2 l2 v2 Hin2 Hall2 Eg2).
-          -- unfold result_ok. rewrite Ei. simpl. unfold clip_elem_ts. rewrite He. rewrite Ell.
-             eexists. split; [reflexivity|]. unfold cconv_ts. simpl. fold (cconv_ts lk). rewrite Elk. reflexivity.
-      + (* objectBoundingBox: converted afresh with this user's box *)
-        assert (He : units_eqb (ce_units e) ObjectBoundingBox = true) by (apply not_cacheable_obb; exact Ecb).
+      simpl clip_convert. rewrite chain_cacheable_iff.
+      destruct (chain_has_obb (e :: link)) eqn:Hall; simpl negb.
+      + (* some clip path of the chain is objectBoundingBox: converted afresh with this user's box, never looked up *)
+        cbv iota.
         destruct (clip_elem_ts e bbox) as [t'|] eqn:Et.
-        * specialize (IH Hlink Hk2 bbox st Hc).
+        * specialize (IH Hlink bbox st Hc).
           destruct (clip_convert taken link bbox st) as [rl st1]. destruct IH as [Hc1 Rl].
           unfold result_ok in *. simpl clip_expected. rewrite Et.
           destruct (clip_expected link bbox) as [ll|] eqn:Ell.
@@ -813,22 +791,43 @@ Section ClipCache.
                 destruct (N.eqb (if regen then gen_id taken (cs_ctr st1) else ce_id e) (ce_id e2)) eqn:Eid.
                 ** exfalso. apply N.eqb_eq in Eid. destruct regen.
                    --- destruct (gen_id_fresh taken (cs_ctr st1)) as [_ G]. apply G. rewrite Eid. apply (D_taken e2 l2 Hin2).
-                   --- pose proof (D_inj _ _ _ _ Hin Hin2 Eid) as Eq. inversion Eq; subst e2 l2.
-                       unfold chain_has_obb in Hall2. simpl in Hall2. rewrite He in Hall2. discriminate.
+                   --- pose proof (D_inj _ _ _ _ Hin Hin2 Eid) as Eq. inversion Eq; subst e2 l2. congruence.
                 ** apply (Hc1 e2 l2 v2 Hin2 Hall2 Eg2).
              ++ eexists. split; [reflexivity|]. unfold cconv_ts. simpl. fold (cconv_ts lk). rewrite Elk. reflexivity.
           -- subst rl. split; [exact Hc1|reflexivity].
         * split; [exact Hc|]. unfold result_ok. simpl. rewrite Et. reflexivity.
+      + (* the whole chain is in user space: box-independent, may be shared *)
+        assert (Hsplit : units_eqb (ce_units e) ObjectBoundingBox = false /\ chain_has_obb link = false).
+        { unfold chain_has_obb in Hall. simpl in Hall. apply orb_false_elim in Hall. exact Hall. }
+        destruct Hsplit as [He Hlall].
+        destruct (expected_indep (e :: link) Hall bbox) as [Ei (l & El)].
+        destruct (cache_get (cs_cache st) (ce_id e)) as [v|] eqn:Eg.
+        * split; [exact Hc|]. unfold result_ok. rewrite Ei, El. exists v. split; [reflexivity|].
+          pose proof (Hc e link v Hin Hall Eg) as K. rewrite El in K. inversion K. reflexivity.
+        * unfold clip_elem_ts. rewrite He.
+          specialize (IH Hlink bbox st Hc).
+          destruct (clip_convert taken link bbox st) as [rl st1]. destruct IH as [Hc1 Rl].
+          destruct (expected_indep link Hlall bbox) as [Eli (ll & Ell)].
+          unfold result_ok in Rl. rewrite Eli, Ell in Rl. destruct Rl as (lk & -> & Elk).
+          simpl. split.
+          -- intros e2 l2 v2 Hin2 Hall2 Eg2. simpl in Eg2.
+             destruct (N.eqb (ce_id e) (ce_id e2)) eqn:Eid.
+             ++ apply N.eqb_eq in Eid. pose proof (D_inj _ _ _ _ Hin Hin2 Eid) as Eq. inversion Eq; subst e2 l2.
+                inversion Eg2; subst v2. simpl. unfold cconv_ts. simpl. fold (cconv_ts lk). rewrite Elk.
+                unfold clip_elem_ts. rewrite He. rewrite Ell. reflexivity.
+             ++ apply (Hc1 e2 l2 v2 Hin2 Hall2 Eg2).
+          -- unfold result_ok. rewrite Ei. simpl. unfold clip_elem_ts. rewrite He. rewrite Ell.
+             eexists. split; [reflexivity|]. unfold cconv_ts. simpl. fold (cconv_ts lk). rewrite Elk. reflexivity.
   Qed.
 
-  (* any sequence of users outside the known class *)
+  (* any sequence of users of chains of the document *)
   Lemma clip_users_ok : forall us st, cache_ok st ->
-    Forall (fun p => inD (fst p) /\ KnownClass_cached_obb_link (fst p) = false) us ->
+    Forall (fun p => inD (fst p)) us ->
     Forall2 (fun p r => result_ok (fst p) (snd p) r) us (clip_users taken us st).
   Proof.
     induction us as [|[c b] rest IH]; intros st Hc Hus; simpl; [constructor|].
-    inversion Hus as [|x y [Hin Hk] Hr]; subst. simpl in Hin, Hk.
-    pose proof (convert_ok c (or_intror Hin) Hk b st Hc) as K.
+    inversion Hus as [|x y Hin Hr]; subst. simpl in Hin.
+    pose proof (convert_ok c (or_intror Hin) b st Hc) as K.
     destruct (clip_convert taken c b st) as [r st']. destruct K as [Hc' R].
     constructor; [exact R|]. apply IH; assumption.
   Qed.
@@ -837,17 +836,9 @@ End ClipCache.
 Lemma cache_ok_empty inD ctr : cache_ok inD {| cs_cache := []; cs_ctr := ctr |}.
 Proof. intros e link v _ _ E. simpl in E. discriminate. Qed.
 
-(* F18: outer (user space) -> inner (objectBoundingBox), two users with different boxes *)
+(* the F18 shape: outer (user space) -> inner (objectBoundingBox), two users with different boxes *)
 Definition f18_chain : csrc :=
   [ {| ce_id := 1; ce_units := UserSpaceOnUse; ce_ts := ts_identity |};
     {| ce_id := 2; ce_units := ObjectBoundingBox; ce_ts := ts_identity |} ].
 Definition f18_b1 : qrect := {| rx := 10; ry := 10; rw := 40; rh := 40 |}.
 Definition f18_b2 : qrect := {| rx := 100; ry := 20; rw := 80; rh := 60 |}.
-Lemma cacheable_refuted :
-  KnownClass_cached_obb_link f18_chain = true /\
-  match clip_users [1%N; 2%N] [(f18_chain, Some f18_b1); (f18_chain, Some f18_b2)] {| cs_cache := []; cs_ctr := 0 |},
-        clip_expected f18_chain (Some f18_b2) with
-  | [_; Some v2], Some l2 => ts_list_eqb (cconv_ts v2) l2 = false
-  | _, _ => False
-  end.
-Proof. vm_compute. split; reflexivity. Qed.
